@@ -32,12 +32,19 @@ theorem C04_token_dispatch (c : Cfg) (f : Nat) (ty : Ty) (h : LeafTy ty) (l : BL
 example : LeafTy .f64 ∧ plainTok (BLeaf.f32 [220, 5, 0, 0]).tok = true ∧ ([TTok.token 8192, TTok.f32 [220, 5, 0, 0]] : List TTok)[1]? = some (BLeaf.f32 [220, 5, 0, 0]).ttok := by
   simp [LeafTy, BLeaf.ttok, BLeaf.tok, plainTok]
 
-/-- the `deserialize_u16` shortcut: a `u16` request on a token id is handed the raw id on both
-sequential paths, whatever the resolver and the strategy say (this is how `#[jomini(token = …)]`
-keys are matched; the tape's ValueDeserializer has no such shortcut and asks the resolver). -/
-theorem C04_u16_hint (p : Path) (c : Cfg) (f n : Nat) (rest : List Tok) (hn : plainTok (.id n) = true) :
-    deTok p c (f + 1) .u16 (.id n) rest = (visitPrim .u16 (.u16 n)).map (fun v => (v, rest)) := by
-  simp [deTok, normTok_plain p .u16 (.id n) rest hn, hinted, leafOf]
+/-- the `deserialize_u16` shortcut: a `u16` request on a token id is handed the raw id on all three
+paths and in the reference, whatever the resolver and the strategy say (this is how
+`#[jomini(token = …)]` keys are matched; the tape's ValueDeserializer has the shortcut since /repo
+4ab9b0c, before that it asked the resolver: former finding u16-on-token-id). -/
+theorem C04_u16_hint (p : Path) (c : Cfg) (f n : Nat) (rest : List Tok) (hn : plainTok (.id n) = true)
+    (tape : List TTok) (idx : Nat) (ht : tape[idx]? = some (.token n)) :
+    deTok p c (f + 1) .u16 (.id n) rest = (visitPrim .u16 (.u16 n)).map (fun v => (v, rest)) ∧
+    tVal c tape (f + 1) .u16 idx = visitPrim .u16 (.u16 n) ∧
+    valLeaf c .u16 (.id n) = visitPrim .u16 (.u16 n) := by
+  refine ⟨?_, ?_, ?_⟩
+  · simp [deTok, normTok_plain p .u16 (.id n) rest hn, hinted, leafOf]
+  · simp [tVal, ht, u16Tok]
+  · simp [valLeaf, u16Leaf]
 
 /-- rgb as its components: a sequence request on an rgb value is `ColorSequence` on all three paths
 and in the reference — the streaming reader hands over the parsed block, the on-demand path reads
